@@ -48,7 +48,7 @@ def run(tier):
             flat = hw + [len(sz)] + [x for p in sz for x in p] + [1, 0] + npu["words"]
             cases.append(flat)
             meta.append((r, k, sizes))
-    outs = models.run("check_bounds", cases) if (okx and cases) else []
+    outs = models.run_parallel("check_bounds", cases) if (okx and cases) else []
     for (r, k, sizes), o in zip(meta, outs):
         programs += 1
         if o[0] != 1:
